@@ -330,6 +330,12 @@ pub fn check_expr(expr: &str, cov: &mut Cov) -> Result<bool, (String, String)> {
                 }
             }
             let ok = finished.iter().any(|r| r.value.as_ref().map(|v| acceptable.contains(v)).unwrap_or(false));
+            if !ok && runs.iter().any(|r| r.uncertain) {
+                // the reference cannot decide what one of the two dialects does (e.g. whether the string 'nan' converts to a
+                // number): a claim is accepted when it matches either dialect, so it cannot be refuted with the other one alone
+                cov.hit("not-judged:reference-unsure-in-one-dialect");
+                continue;
+            }
             if !ok {
                 // strings that embed number->string conversions: accept any acceptable spelling of the numbers involved
                 if let (LuaValue::String(claimed), Some(got)) = (&value, finished[0].value.as_ref()) {
